@@ -397,6 +397,8 @@ class World:
             acts.append("UL")
         if self.pos[1] < len(self.scripts[1]):
             acts.append("UR")
+        if acts and self.opts.get("users_first"):
+            return acts             # the engine only starts once every user operation has happened
         acts.extend(ENGINE)
         h = self.hooks.get("actions")
         if h:
@@ -528,7 +530,7 @@ class World:
                 row.append((ss._otype.value if ss._otype else None, ss._hash, ts(ss._changed), ts(ss._last_gotten),
                             ss._sync_hash, ss._sync_path, ss._path, R(ss._oid), ss._exists.value, ss._force_sync,
                             bool(ss._temp_file and os.path.exists(ss._temp_file)),
-                            ss._saved_exists.value if ss._saved_exists else None))
+                            ss._saved_exists.value if ss._saved_exists is not None else None))
             ents.append((tuple(row), e._ignored.value, e._priority, e in chg, e._storage_id is not None,
                          e in st._dirtyset))
         extra = ()
